@@ -65,6 +65,7 @@ var wrapperText = map[string]string{
 	"errors":      "errors {DIR}/errors.log",
 	"errpage":     "errors {DIR}/errors.log {\n\t\t404 {DIR}/err404.html\n\t}",
 	"header":      "header / X-Wrap yes",
+	"header-echo": "header / X-Echo \"{>X-Evil}|{nosuch}|{>User-Agent}\"", // another directive expands the placeholders the log formats use
 	"limits":      "limits 1MB",
 	"status":      "status 410 /gone",
 	"redir":       "redir /moved /elsewhere 301",
